@@ -22,9 +22,10 @@ MANIFEST = {
             'succeed/fail/cancel_atomic (the script changes nothing, or installs state+output+state_info+accepted together '
             'at the instant of its compare-and-swap on a row whose state it had read), fail/cancel_keeps_finished (a row '
             'finished at that instant keeps state, state_info, output; nothing is reported), '
-            'succeed_keeps_finished_full_fails/_partial, *_state_output_together, cac_succeed_atomic, '
-            'cac_succeed_keeps_finished_full_fails/_partial and cac_one_party_full_fails/_partial (two races of the '
-            'completion check with its stale guard: known findings, replayed on the real code). Tie B: race-wf stream = the '
+            'succeed_keeps_finished (full since repo fix ce9b9520), *_state_output_together, cac_succeed_atomic, '
+            'cac_succeed_keeps_finished (the race of the completion check with a concurrent stop(SUCCESS) found here is '
+            'closed by repo fix ce9b9520: full theorem) and cac_one_party_full_fails/_partial (an execution PAUSED during '
+            'its completion check is force-failed to ERROR: known finding, replayed on the real code). Tie B: race-wf stream = the '
             'REAL completion / stop transactions with the REAL stop / pause / second completion check of another session '
             'committed at every pre-lock SQL statement (statement tap), final row + write statements + exception equal '
             'Mistral.Race.runWith on the generated script; monitor: a finished row is never altered, (state, output) come '
